@@ -125,4 +125,28 @@ theorem phrase_two_terms (a b : List Nat) (s : Nat) (ha : a.Pairwise (· ≤ ·)
   · rw [e4]; apply bool_eq_of_iff; rw [decide_eq_true_eq]
     exact ((c2.trans x2).trans cm.symm).trans sp.symm
 
+theorem offStep_reset (slop : Nat) (st : List Nat) (adjs : List (List Nat)) :
+    (offStep true slop st adjs).1 = phraseOff adjs slop := by
+  cases adjs <;> rfl
+
+theorem onStep_reset (slop : Nat) (st : List Nat) (adjs : List (List Nat)) :
+    (onStep true slop st adjs).1 = phraseOn adjs slop := by
+  cases adjs with
+  | nil => rfl
+  | cons first rest =>
+    simp only [onStep, phraseOn, if_true]
+
+/-- with the reset, what the scorer answers for a document does not depend on the documents it
+evaluated before -/
+theorem runSteps_reset (slop : Nat) : ∀ (docs : List (List (List Nat))) (st : List Nat),
+    runSteps (offStep true slop) st docs = docs.map (phraseOff · slop)
+      ∧ runSteps (onStep true slop) st docs = docs.map (phraseOn · slop) := by
+  intro docs
+  induction docs with
+  | nil => intro st; exact ⟨rfl, rfl⟩
+  | cons d ds ih =>
+    intro st
+    simp only [runSteps, List.map_cons, offStep_reset, onStep_reset]
+    exact ⟨by rw [(ih _).1], by rw [(ih _).2]⟩
+
 end TantivyModel.PhraseSlop
